@@ -143,7 +143,7 @@ func checkC05(c *Ctx) {
 			r.Unres("R05c", f.Name, "", "unit root not found")
 			continue
 		}
-		ex := c.Explore(ri.Fn, 1, 6000)
+		ex := c.ExploreT(ri.Fn, 6000)
 		bad, pos := "", ""
 		n := 0
 		for _, v := range ex.Variants {
@@ -540,7 +540,7 @@ func customFormReachesProtojson(c *Ctx, rid string) {
 	sites := map[string]site{}
 	okSites := map[string]string{}
 	for _, ri := range c.goUnitRoots() {
-		ex := c.Explore(ri.Fn, 1, 6000)
+		ex := c.ExploreT(ri.Fn, 6000)
 		if !unitDeclaresCodec(ex) {
 			continue
 		}
